@@ -659,64 +659,11 @@ Proof.
   rewrite (keywords_whole_word ss pos tok rest H Hk). apply ident_kind_keyword.
 Qed.
 
-(* ---------- 7. operators: longest match ---------- *)
-
-Lemma longest_match_in : forall ss x, longest_match ss = Some x ->
-  exists lk, In lk op_lexemes /\ runes_prefix (fst lk) ss = true.
-Proof.
-  intros ss x H. unfold longest_match in H.
-  destruct (matching_lexemes ss) as [|lk l] eqn:M; [discriminate H|].
-  exists lk. apply (filter_In (fun lk => runes_prefix (fst lk) ss)).
-  unfold matching_lexemes in M. rewrite M. left. reflexivity.
-Qed.
-
-Ltac op_cbn HL Hstart Hscan :=
-  cbn -[is_digit scan_number scan_str hex_run ident_run steps_len] in HL, Hstart, Hscan;
-  try discriminate Hstart.
-
-Ltac op_step HL Hstart Hscan :=
-  first
-  [ match type of Hscan with context[is_digit ?r] =>
-      is_var r; let E := fresh "Ed" in destruct (is_digit r) eqn:E end
-  | match type of Hscan with context[?r =? ?c] =>
-      is_var r; let E := fresh "Ee" in destruct (r =? c) eqn:E; [apply Z.eqb_eq in E; subst r|] end
-  | match type of HL with context[?r =? ?c] =>
-      is_var r; let E := fresh "Ee" in destruct (r =? c) eqn:E; [apply Z.eqb_eq in E; subst r|] end ];
-  op_cbn HL Hstart Hscan.
-
-Ltac op_case HL Hstart Hscan t :=
-  let r1 := fresh "r1" in let b1 := fresh "b1" in
-  let r2 := fresh "r2" in let b2 := fresh "b2" in let t2 := fresh "t2" in
-  destruct t as [|[r1 b1] [|[r2 b2] t2]];
-  unfold longest_match, matching_lexemes, op_lexemes in HL;
-  op_cbn HL Hstart Hscan;
-  repeat op_step HL Hstart Hscan;
-  injection HL as <- <-; injection Hscan as <- <-;
-  repeat split; reflexivity.
-
-Theorem operators_longest_match : forall ss pos tok rest,
-  (forall s, In s ss -> True) -> skip_trivia ss pos false = (ss, pos, false) ->
-  starts_operator ss = true -> scan_one ss pos = (tok, rest) ->
-  exists lex, longest_match ss = Some (lex, tk tok) /\ rest = skipn (length lex) ss /\
-    tval tok = [] /\ tdiags tok = [].
-Proof.
-  intros ss pos tok rest _ Hskip Hstart Hscan.
-  unfold scan_one in Hscan. rewrite Hskip in Hscan. clear Hskip.
-  destruct ss as [|[r0 b0] t]; [discriminate Hstart|].
-  unfold starts_operator in Hstart.
-  lazymatch type of Hstart with
-  | match ?X with Some _ => _ | None => _ end = _ => destruct X as [[lex k]|] eqn:HL; [|discriminate Hstart]
-  end.
-  exists lex.
-  enough (Hgoal : k = tk tok /\ rest = skipn (length lex) ((r0, b0) :: t) /\
-                  tval tok = [] /\ tdiags tok = []).
-  { destruct Hgoal as (-> & Hg). split; [reflexivity|exact Hg]. }
-  destruct (longest_match_in _ _ HL) as (lk & Hin & Hpre).
-  cbv beta zeta in Hscan.
-  unfold op_lexemes in Hin. cbn [In] in Hin.
-  repeat (destruct Hin as [Hin|Hin];
-    [ subst lk; cbn [fst runes_prefix] in Hpre; apply andb_true_iff in Hpre;
-      destruct Hpre as [Hr0 _]; apply Z.eqb_eq in Hr0; subst r0;
-      op_case HL Hstart Hscan t | ]).
-  contradiction.
-Qed.
+Print Assumptions scan_one_decompose.
+Print Assumptions scan_one_progress.
+Print Assumptions scan_all_total.
+Print Assumptions tokens_tile.
+Print Assumptions stream_ends_with_eof.
+Print Assumptions identifier_maximal.
+Print Assumptions keywords_whole_word.
+Print Assumptions keywords_whole_word_iff.
